@@ -8,31 +8,32 @@ pub struct ExCursorCfg<T>(std::io::Cursor<T>);
 pub open spec fn no_char(s: Seq<char>, c: char) -> bool { forall|i: int| 0 <= i < s.len() ==> #[trigger] s[i] != c }
 // std::env::set_var PANICS when the key is empty or holds '=' or NUL, or when the value holds NUL
 pub open spec fn valid_env_key(k: Seq<char>) -> bool { k.len() > 0 && no_char(k, '=') && no_char(k, '\0') }
-#[verifier::external_body]
-pub fn rws_env_set_var(k: &String, v: &String)
-    requires valid_env_key(k@), no_char(v@, '\0'),
-{
-    std::env::set_var(k, v)
-}
 
-// BufRead::lines() of an in-memory cursor, collected: the lines in order (no line holds '\n'; nothing else is needed here)
+// BufRead::lines() of an in-memory cursor, collected: the lines in order, a function of the bytes the cursor was made of
+pub uninterp spec fn cur_text(c: std::io::Cursor<&[u8]>) -> Seq<u8>;
+pub uninterp spec fn lines_of(b: Seq<u8>) -> Seq<Result<String, std::io::Error>>;
 pub struct RwsLines { pub v: Vec<Result<String, std::io::Error>> }
 impl RwsLines {
     pub fn into_iter(self) -> (r: RwsLines) ensures r == self { self }
 }
-pub trait RwsLinesOf { fn rws_lines(self) -> RwsLines; }
+pub trait RwsLinesOf {
+    spec fn lines_spec(self) -> Seq<Result<String, std::io::Error>>;
+    fn rws_lines(self) -> (r: RwsLines) ensures r.v@ == self.lines_spec();
+}
 impl<'a> RwsLinesOf for std::io::Cursor<&'a [u8]> {
+    open spec fn lines_spec(self) -> Seq<Result<String, std::io::Error>> { lines_of(cur_text(self)) }
     #[verifier::external_body]
     fn rws_lines(self) -> RwsLines { RwsLines { v: self.lines().collect() } }
 }
 // R-FORCONT: the items of the iterator, reversed, so that pop() hands them out in order
 pub fn rws_iter_to_rev_vec(l: RwsLines) -> (r: Vec<Result<String, std::io::Error>>)
-    ensures r@.len() == l.v@.len(),
+    ensures r@.len() == l.v@.len(), forall|j: int| 0 <= j < r@.len() ==> r@[j] == l.v@[l.v@.len() - 1 - j],
 {
     let mut v = l.v;
     let mut out: Vec<Result<String, std::io::Error>> = Vec::new();
     while v.len() > 0
-        invariant out@.len() + v@.len() == l.v@.len(),
+        invariant out@.len() + v@.len() == l.v@.len(), v@ == l.v@.take(v@.len() as int),
+            forall|j: int| 0 <= j < out@.len() ==> out@[j] == l.v@[l.v@.len() - 1 - j],
         decreases v@.len(),
     {
         let x = v.pop().unwrap();
@@ -49,7 +50,10 @@ pub trait RwsCharPat {
     fn rws_replace_char(&self, c: char, to: &str) -> (r: String)
         ensures to@.len() == 0 ==> r@ == without_char(self.sv_cp(), c);
     fn rws_split_once_char<'a>(&'a self, c: char) -> (r: Option<(&'a str, &'a str)>)
-        ensures r.is_some() ==> self.sv_cp() == r.unwrap().0@ + seq![c] + r.unwrap().1@;
+        ensures
+            r.is_some() ==> self.sv_cp() == r.unwrap().0@ + seq![c] + r.unwrap().1@,
+            r.is_none() <==> split_once_spec(self.sv_cp(), seq![c]).is_none(),
+            r.is_some() ==> (r.unwrap().0@, r.unwrap().1@) == split_once_spec(self.sv_cp(), seq![c]).unwrap();
 }
 impl RwsCharPat for String {
     open spec fn sv_cp(&self) -> Seq<char> { self@ }
